@@ -46,6 +46,12 @@ func newOwnRig(realSleep bool) *ownRig {
 		if d, _ := strconv.Atoi(c.Query("d")); d > 0 {
 			time.Sleep(time.Duration(d) * time.Millisecond)
 		}
+		if realSleep {
+			// race mode: every response also sets cookies, so that a shared jar is written
+			// (parseCookiesFromResp) while other requests read it (dumpCookiesToReq)
+			c.Response().Header.Add("Set-Cookie", "last="+id+"; Path=/")
+			c.Response().Header.Add("Set-Cookie", "k"+strconv.Itoa(int(r.n.Load()%7))+"="+id+"; Path=/o")
+		}
 		return c.SendString("id=" + id)
 	})
 	r.ln = fasthttputil.NewInmemoryListener()
